@@ -332,3 +332,59 @@ func VerifC19Refused() {
 	}
 	verifapi.Assert(p.NumRemotes() == want, "c19.refused.only-acknowledged-connections-registered")
 }
+
+// VerifC19Concrete: normalizeNodeURI on a family of concrete addresses that
+// the byte-level harness does not spell out - IPv4, names, IPv6 with and
+// without a zone (link-local fe80::1%eth0, which a URI writes as %25eth0),
+// mixed case, as connection source or as override with and without a port:
+// the advertised URI parses back, with the agent-side parser, to the
+// authenticated identity, the supplied (else the source) host and the
+// supplied port (else 30303). Everything here is concrete, so the real
+// net/url and net code runs unmodelled.
+func VerifC19Concrete() {
+	nodeID := verifapi.NodeID(0)
+	hosts := []string{"192.0.2.7", "pool.example", "2001:db8::7", "fe80::1%eth0", "fe80::1%25", "FE80::A", "xn--bcher-kva.example", "10.0.0.1"}
+	src := hosts[verifapi.Choose("source", len(hosts))]
+	uri := ""
+	wantHost, wantPort := src, "30303"
+	if verifapi.Bool("override") {
+		h := hosts[verifapi.Choose("host", len(hosts))]
+		hostport := h
+		if hasByte(h, ':') {
+			// as a URI spells an IPv6 literal: in brackets, the zone's % escaped
+			esc := ""
+			for i := 0; i < len(h); i++ {
+				if h[i] == '%' {
+					esc += "%25"
+				} else {
+					esc += string(h[i])
+				}
+			}
+			hostport = "[" + esc + "]"
+		}
+		wantHost = h
+		if verifapi.Bool("withport") {
+			hostport += ":30305"
+			wantPort = "30305"
+		}
+		uri = "enode://" + nodeID + "@" + hostport
+	}
+	got, err := normalizeNodeURI(uri, nodeID, src, "30303")
+	verifapi.Reach("c19.concrete")
+	if err != nil {
+		verifapi.Assert(false, "c19.well-formed-address-accepted")
+		return
+	}
+	parsed, perr := ethnode.ParseNodeURI(got)
+	if perr != nil {
+		verifapi.Assert(false, "c19.advertised-uri-parses")
+		return
+	}
+	verifapi.Assert(parsed.ID() == nodeID, "c19.advertised-under-authenticated-identity")
+	h, p, serr := net.SplitHostPort(parsed.Host)
+	verifapi.Assert(serr == nil, "c19.advertised-address-is-host-port")
+	if serr == nil {
+		verifapi.Assert(h == wantHost, "c19.advertised-host-is-supplied-or-default")
+		verifapi.Assert(p == wantPort, "c19.advertised-port-is-supplied-or-30303")
+	}
+}
